@@ -143,12 +143,20 @@ def mapping_rules(chk):
             chk.bad(r, name, "a missing section is handled without consulting the plugin's required flag", node=fi.node, stmt="required-not-consulted")
             ok = False
             continue
-        rterm = [x for x in subterms(req[0][1]) if x[0] == "attr" and x[2] == "required"][0]
-        required = it.truth(rterm, o.path)
-        if required is None:
+        # one decision per iteration: every iteration before the last one went on, so its plugin must be optional
+        flags = []
+        for b in req:
+            rterm = [x for x in subterms(b[1]) if x[0] == "attr" and x[2] == "required"][0]
+            flags.append(it.truth(rterm, o.path))
+        if any(f is None for f in flags):
             chk.undecided(r, name, "the required flag is not decided on a path", node=fi.node)
             ok = False
             continue
+        if any(flags[:-1]):
+            chk.bad(r, name, "a required plugin whose section is missing does not make loading fail with a ConfigurationError (the loop goes on to the next plugin)", node=fi.node, stmt="required-missing-not-rejected")
+            ok = False
+            continue
+        required = flags[-1]
         saw_req[required] += 1
         if required and not (o.kind == "raise" and is_exc(o.value) and o.value[1] == CONFIG_ERROR):
             chk.bad(r, name, "a required plugin whose section is missing does not make loading fail with a ConfigurationError (path ends: %s %s)" % (o.kind, show(o.value) if o.value else ""), node=fi.node, stmt="required-missing-not-rejected")
